@@ -5,7 +5,11 @@
 (*                                                                          *)
 (* events (one ndjson line each):                                           *)
 (*   Load     pkg, cmd         a new run starts (abstract package as in     *)
-(*                             TestRunner, rendered to source by python)    *)
+(*                             TestRunner, rendered to source by python;    *)
+(*                             pkg.disk # <<>>: written to a directory in   *)
+(*                             that order and read back by FileTree::read / *)
+(*                             the CLI: only the files that the documented  *)
+(*                             rules make part of the package count)        *)
 (*   Compile  ok               api: FileTree::compile returned Ok / Err     *)
 (*   Internal                  cli: the compile step is not observable alone *)
 (*   RunTest  marks            the marks reported from one test body on     *)
@@ -23,7 +27,8 @@ tvars == <<pkg, cmd, phase, pending, log, failures, verdict, exit, entryRuns, l>
 Ev == Rec[l]
 IsEv(name) == l <= Len(Rec) /\ Ev.op = name /\ l' = l + 1
 
-EmptyPkg == [mods |-> <<Root>>, tests |-> <<>>, funcs |-> <<>>, broken |-> "none", fnpos |-> "mixed"]
+EmptyPkg == [mods |-> <<Root>>, tests |-> <<>>, funcs |-> <<>>, broken |-> "none", fnpos |-> "mixed",
+             disk |-> <<>>, brokenAt |-> Root]
 ApiCmd   == [kind |-> "api", explicit |-> FALSE, mod |-> Root, fn |-> MAIN]
 
 TraceInit == l = 1 /\ Init(EmptyPkg, ApiCmd)
